@@ -21,9 +21,23 @@ func (b Builder) Build() (*Map, error) {
 	for _, a := range b.attrs {
 		attrs[a.Name] = a
 	}
-	for _, c := range b.chords {
-		chords[c.Name] = c
-		chords[c.Meta.Display] = c
+	// Later definitions win. A chord replaces an earlier chord of the same
+	// name as a whole, display name included, and the name of a chord is
+	// never taken over by the display name of another chord: a chord is
+	// looked up again by its name after it was found by its display name.
+	last := map[string]int{}
+	for i, c := range b.chords {
+		last[c.Name] = i
+	}
+	for i, c := range b.chords {
+		if last[c.Name] == i {
+			chords[c.Meta.Display] = c
+		}
+	}
+	for i, c := range b.chords {
+		if last[c.Name] == i {
+			chords[c.Name] = c
+		}
 	}
 
 	return NewMap(attrs, chords)
